@@ -1,6 +1,8 @@
 import FgaVerif.Proofs.WMap
 import FgaVerif.Proofs.Weights
 import FgaVerif.Proofs.WeightsCongr
+import FgaVerif.Props.C11
+import FgaVerif.Props.C04
 /-! # C06 — the weighted graph is a deterministic function of the model (specification side)
 
     C06 is a property of the Go code's schedule (map iteration, depth-first start order, concurrent
@@ -147,5 +149,91 @@ def gB : SGraph := [
   ⟨"doc#a", .rel, [⟨.node "doc#b", false, ""⟩, ⟨.type "user", true, ""⟩]⟩]
 example : Converged gA ∧ Converged gB := by unfold Converged; decide
 example : stateGet (weights gA) "doc#a" = [("user", infinite)] ∧ stateGet (weights gB) "doc#a" = [("user", infinite)] := by decide
+
+/-! ### the algorithm: what it computes does not depend on the traversal
+
+    About the **port** of `AssignWeights` (`Model/WAssign.lean`, whose depth-first start order is a parameter):
+    two successful runs from any two start orders visit the same nodes and give every node the same wildcard
+    *set* (from C11's exact characterisation: the set is determined by reachability in the graph, in which no
+    order occurs), and the same weight for every terminal type (from C04's exact characterisation of the weights by
+    `HasT` and `WalkT`).  Not covered: that the *verdict* (success or the error class) is independent of the order
+    — that is the correspondence per forced order plus the specification oracle, and for rewrite-only cycles the
+    theorem of C05. -/
+section algorithm
+open FgaVerif.Model FgaVerif.Model.WGraph FgaVerif.Model.WAssign
+
+/-- both runs visit exactly the non-terminal nodes of the graph that are nodes of the graph -/
+theorem algorithm_visits_order_independent (g : G) (o1 o2 : List String) (s1 s2 : AState)
+    (h1 : assignWeights g o1 = .ok s1) (h2 : assignWeights g o2 = .ok s2) (n : WNode) (hn : n ∈ g.nodes)
+    (hnt : isTerminal (nodeType g n.uniqueLabel) = false) :
+    n.uniqueLabel ∈ s1.visited ∧ n.uniqueLabel ∈ s2.visited :=
+  ⟨(FgaVerif.Props.C04.algorithm_all_nodes_visited g o1 s1 h1).1 n hn hnt,
+   (FgaVerif.Props.C04.algorithm_all_nodes_visited g o2 s2 h2).1 n hn hnt⟩
+
+/-- **the wildcard set of every node is independent of the depth-first start order** -/
+theorem algorithm_wildcards_order_independent (g : G) (hph : noPHTypesB g = true) (hs : srcOKB g = true)
+    (hts : termSinkB g = true) (o1 o2 : List String) (s1 s2 : AState)
+    (h1 : assignWeights g o1 = .ok s1) (h2 : assignWeights g o2 = .ok s2) (n : WNode) (hn : n ∈ g.nodes)
+    (hnt : isTerminal (nodeType g n.uniqueLabel) = false) (T : String) :
+    T ∈ aget n.uniqueLabel s1.nodeWild ↔ T ∈ aget n.uniqueLabel s2.nodeWild := by
+  obtain ⟨v1, v2⟩ := algorithm_visits_order_independent g o1 o2 s1 s2 h1 h2 n hn hnt
+  rw [FgaVerif.Props.C11.algorithm_wildcards_exact g hph hs hts o1 s1 h1 _ v1 T,
+      FgaVerif.Props.C11.algorithm_wildcards_exact g hph hs hts o2 s2 h2 _ v2 T]
+
+/-- **the weight of every terminal type at every node is independent of the depth-first start order**: two
+    successful runs of the algorithm agree on every lookup of every node's weight map (the keys are the types
+    that reach the node, a finite weight is the largest hop count of a walk, `Infinite` stands for unbounded
+    walks — C04's exact characterisation, in which no order occurs) -/
+theorem algorithm_weights_order_independent (g : G) (hph : noPHTypesB g = true) (o1 o2 : List String) (s1 s2 : AState)
+    (h1 : assignWeights g o1 = .ok s1) (h2 : assignWeights g o2 = .ok s2) (n : WNode) (hn : n ∈ g.nodes)
+    (hnt : isTerminal (nodeType g n.uniqueLabel) = false) (T : String) :
+    wget T (aget n.uniqueLabel s1.nodeW) = wget T (aget n.uniqueLabel s2.nodeW) := by
+  obtain ⟨v1, v2⟩ := algorithm_visits_order_independent g o1 o2 s1 s2 h1 h2 n hn hnt
+  -- one direction, used twice
+  have key : ∀ (oa ob : List String) (sa sb : AState) (ha : assignWeights g oa = .ok sa) (hb : assignWeights g ob = .ok sb)
+      (va : n.uniqueLabel ∈ sa.visited) (vb : n.uniqueLabel ∈ sb.visited) (w : Nat),
+      wget T (aget n.uniqueLabel sa.nodeW) = some w → wget T (aget n.uniqueLabel sb.nodeW) = some w := by
+    intro oa ob sa sb ha hb va vb w hw
+    have hle := (FgaVerif.Props.C04.algorithm_weights_witnessed g hph oa sa ha _ T w hw).1
+    have hT : HasT g n.uniqueLabel T :=
+      (FgaVerif.Props.C04.algorithm_keys_exact g hph oa sa ha _ T va).1 (by rw [hw]; rfl)
+    have hsome := (FgaVerif.Props.C04.algorithm_keys_exact g hph ob sb hb _ T vb).2 hT
+    obtain ⟨w', hw'⟩ := Option.isSome_iff_exists.1 hsome
+    have hle' := (FgaVerif.Props.C04.algorithm_weights_witnessed g hph ob sb hb _ T w' hw').1
+    rw [hw']
+    congr 1
+    by_cases hfin : w < FgaVerif.Model.WAssign.infinite
+    · obtain ⟨_, hwalk, hmax⟩ := FgaVerif.Props.C04.algorithm_finite_weight_is_max_hops g hph oa sa ha _ T w va hw hfin
+      by_cases hfin' : w' < FgaVerif.Model.WAssign.infinite
+      · obtain ⟨_, hwalk', hmax'⟩ := FgaVerif.Props.C04.algorithm_finite_weight_is_max_hops g hph ob sb hb _ T w' vb hw' hfin'
+        have a := hmax w' hwalk'
+        have b := hmax' w hwalk
+        omega
+      · have hinf' : w' = FgaVerif.Model.WAssign.infinite := by omega
+        rw [hinf'] at hw'
+        rcases (FgaVerif.Props.C04.algorithm_infinite_iff g hph ob sb hb _ T vb).1 hw' with hu | ⟨k, hk, hwk⟩
+        · obtain ⟨k, hk, hwk⟩ := hu (w + 1)
+          have := hmax k hwk
+          omega
+        · have := hmax k hwk
+          omega
+    · have hinf : w = FgaVerif.Model.WAssign.infinite := by omega
+      rw [hinf] at hw
+      have hcond := (FgaVerif.Props.C04.algorithm_infinite_iff g hph oa sa ha _ T va).1 hw
+      have hw2 := (FgaVerif.Props.C04.algorithm_infinite_iff g hph ob sb hb _ T vb).2 hcond
+      rw [hw'] at hw2
+      rw [hinf]
+      exact (Option.some.inj hw2)
+  cases e1 : wget T (aget n.uniqueLabel s1.nodeW) with
+  | some w => exact (key o1 o2 s1 s2 h1 h2 v1 v2 w e1).symm
+  | none =>
+    cases e2 : wget T (aget n.uniqueLabel s2.nodeW) with
+    | none => rfl
+    | some w =>
+      have := key o2 o1 s2 s1 h2 h1 v2 v1 w e2
+      rw [e1] at this
+      cases this
+
+end algorithm
 
 end FgaVerif.Props.C06
